@@ -170,9 +170,17 @@ pub fn det_requests(ctx: &mut Ctx, rng: &mut Rng, extra: &[String]) {
     if hostile {
         fs.extend(hostile_files(rng));
     }
-    for (k, (name, src)) in fs.iter().enumerate() {
+    for (k, (name, src0)) in fs.iter().enumerate() {
         let id = format!("f{}:{}", k, name);
         let file_no = if k % 5 == 4 { 1 + rng.below(9) } else { 0 };
+        // line-end layouts (C02): CRLF, no final line feed, a multi-byte comment line first
+        let laid_out = match k % 6 {
+            1 => src0.replace("\r\n", "\n").replace('\n', "\r\n"),
+            2 => src0.trim_end_matches(|c| c == '\n' || c == '\r').to_string(),
+            3 => format!("// \u{8a08}\u{6570}\u{5668} \u{2014} \u{e9}\u{1F600}\r\n{}", src0),
+            _ => src0.clone(),
+        };
+        let src = &laid_out;
         if let Some(su) = emit_file(ctx, &id, src, file_no) {
             emit_dets(ctx, &id, &su, &filters);
             if lines {
